@@ -174,12 +174,12 @@ class _Env(object):
         shutil.rmtree(self.d, ignore_errors=True)
 
 
-def h_roundtrip(ctx, nrandom):
+def h_roundtrip(ctx, nrandom, how=None):
     from yowsup.config.manager import ConfigManager
     from yowsup.config.v1.config import Config
     with _Env() as env:
         fmt = ctx.choice("format", ["json", "keyval"])
-        how = ctx.choice("load_by", ["path-with-extension", "path-without-extension", "profile-name", "fresh-profile-name", "profile-object"])
+        how = how or ctx.choice("load_by", ["path-with-extension", "path-without-extension", "profile-name", "fresh-profile-name", "profile-object"])
         family = ctx.choice("values", ["plain", "unicode", "zeros", "surrogate", "empty"])
         locale_enc = ctx.choice("locale_encoding", ["utf-8", "ascii"])
         name, subset = _subset(ctx, nrandom)
@@ -241,7 +241,9 @@ def _roundtrip_body(ctx, env, cm, cfg, st, fmt, how, vals):
                 os.chdir(here)
         else:
             ext = {"json": ".json", "keyval": ".yo"}[fmt] if how == "path-with-extension" else ""
-            dest = os.path.join(env.d, "myconfig" + ext)
+            # a file name of the user's choosing: without extension the format is found by parsing, whatever the name's last letters are
+            base = ctx.choice("file_name", ["myconfig", "tokyo", "work-json", "acct.2020", "JSON"]) if not ext else "myconfig"
+            dest = os.path.join(env.d, base + ext)
             cm.save("unused", cfg, st, dest=dest)
             loaded = cm.load(dest)
         bad = _config_eq(_Expected(vals), loaded, fmt == "keyval")
@@ -451,6 +453,7 @@ def cases(tier):
     for n in ((1, 2, 3) if q else (1, 2, 3, 4)):
         cs.append(dict(name="kv[n=%d]" % n, fn=h_keyval, args=(n, False), weight=6 ** n, timeout_s=600 if q else 3000, max_paths=400000))
     cs.append(dict(name="kv[two-entries]", fn=h_keyval, args=(2, True), weight=200, timeout_s=600, max_paths=400000))
-    cs.append(dict(name="rt[pipeline]", fn=h_roundtrip, args=(0 if q else 150,), weight=100, timeout_s=900 if q else 3000, max_paths=100000, keep_samples=12))
+    for how in ("path-with-extension", "path-without-extension", "profile-name", "fresh-profile-name", "profile-object"):
+        cs.append(dict(name="rt[pipeline,load by %s]" % how, fn=h_roundtrip, args=(0 if q else 150, how), weight=100, timeout_s=900 if q else 3000, max_paths=100000, keep_samples=8))
     cs.append(dict(name="crash[save]", fn=h_crash, weight=30, keep_samples=12))
     return cs
